@@ -921,6 +921,9 @@ class Consumer(object):
             # We are still working through the last block of messages...
             # We have to wait until it's done, then process this response
             self._msg_block_d.addCallback(lambda _: self._handle_fetch_response(responses))
+            # An error in handling the parked response (e.g. a checksum error) must lead to
+            # a retry like for any other response; unhandled, the consumer would just stop.
+            self._msg_block_d.addErrback(self._handle_fetch_error)
             return
 
         # No ongoing processing, great, let's get some started.
